@@ -319,11 +319,13 @@ Proof. intros H Hd B P HB HP HR. apply (Hd B P HB HP). now apply H. Qed.
 Variable c0 : nat.      (* the call counter when the computer was created *)
 Definition pot (g : ghost) (stt : mstate) : nat :=
   length (gSs g) + length (gPs g) + match stt with MNone => 1 | _ => 0 end.
+(* every step but the first (which installs the grounded start) costs one SAT call *)
+Definition cst (stt : mstate) : nat := match stt with MInit => 0 | _ => 1 end.
 
 Definition kinv (rel : list nat -> Prop) (k : computer) (s : Prog.st) (g : ghost) : Prop :=
   k = kk (c_cur k) (c_model k) (c_state k) /\ NoDup (c_cur k) /\ sess_bounded s /\
   cls s = C0 ++ map bclause (gBs g) /\
-  calls s <= c0 + pot g (c_state k) /\
+  calls s + cst (c_state k) <= c0 + pot g (c_state k) /\
   (forall S, In S (gSs g) -> base S) /\ sepl (gSs g) /\
   (forall P, In P (gPs g) -> maxc P /\ In P (gBs g)) /\ sepl (gPs g) /\
   match c_state k with
@@ -377,11 +379,11 @@ Notation wpx := (wp QA QP QF).
 Lemma new_search_spec rel cur m stt s Bs Ss Ps (Q : computer -> Prog.st -> Prop) :
   fl = FPref -> NoDup cur -> sess_bounded s ->
   cls s = C0 ++ map bclause Bs ->
-  calls s <= c0 + length Ss + length Ps ->
+  calls s + 1 <= c0 + length Ss + length Ps ->
   (forall S, In S Ss -> base S) -> sepl Ss ->
   (forall P, In P Ps -> maxc P /\ In P Bs) -> sepl Ps ->
   (forall S, In S Ss -> In S Bs) -> dead rel Bs ->
-  (forall s', calls s' <= c0 + length Ss + length Ps + 1 -> QA s') ->
+  (forall s', calls s' <= c0 + length Ss + length Ps -> QA s') ->
   (forall k' s' g', kinv rel k' s' g' ->
       (c_state k' = MIntermediate \/ c_state k' = MNone) ->
       pot g' (c_state k') = length Ss + length Ps + 1 -> Q k' s') ->
@@ -423,7 +425,7 @@ Lemma compute_next_spec rel k s g (Q : computer -> Prog.st -> Prop) :
   (c_state k = MMaximal \/ c_state k = MJustDiscarded -> fl = FPref) ->
   (c_state k = MMaximal -> dead rel [c_cur k]) ->
   c_state k <> MNone ->
-  (forall s', calls s' <= c0 + pot g (c_state k) + 1 -> QA s') ->
+  (forall s', calls s' <= c0 + pot g (c_state k) -> QA s') ->
   (forall k' s' g', kinv rel k' s' g' -> next_ok (c_state k) (c_state k') ->
       pot g' (c_state k') = pot g (c_state k) + 1 -> Q k' s') ->
   wpx (compute_next oracle k) Q s.
@@ -431,7 +433,7 @@ Proof.
   intros (Hk & Hnd & Hsb & Hc & Hcalls & HSs & HsepS & HPs & HsepP & Hst) Hfp Hdm Hnn HA HQ.
   destruct g as [Bs Ss Ps]. cbn [gBs gSs gPs] in *.
   rewrite Hk. unfold compute_next. cbn [c_state kk].
-  destruct (c_state k) eqn:Est; unfold pot in *; cbn [gSs gPs] in *.
+  destruct (c_state k) eqn:Est; unfold pot, cst in *; cbn [gSs gPs] in *.
   - (* MMaximal *)
     destruct Hst as (Bs0 & HBs & Hmax & HSB & Hdead).
     specialize (Hfp (or_introl eq_refl)). specialize (Hdm eq_refl).
@@ -522,7 +524,7 @@ Proof.
     destruct Hst as (-> & -> & ->). rewrite wp_ret.
     apply (HQ _ _ {| gBs := []; gSs := [gr0]; gPs := [] |}).
     + unfold kinv. cbn [with_cur kk c_cur c_model c_state gBs gSs gPs pot length c_g].
-      split; [reflexivity|]. split; [exact Hgr0nd|]. split; [exact Hsb|]. split; [exact Hc|]. split; [cbn in Hcalls; lia|].
+      split; [reflexivity|]. split; [exact Hgr0nd|]. split; [exact Hsb|]. split; [exact Hc|]. split; [cbn in Hcalls |- *; lia|].
       split; [intros S [<-|[]]; exact (proj1 Hgr0)|]. split; [split; [intros T []|exact I]|].
       split; [intros P []|]. split; [exact I|].
       split; [exact Hgr0|]. split; [intros B []|]. split; [|apply dead_nil].
@@ -604,19 +606,19 @@ Hypothesis HBnd : forall Ss Ps,
   (forall S, In S Ss -> base S) -> sepl Ss -> (forall P, In P Ps -> maxc P) -> sepl Ps ->
   length Ss + length Ps + 1 <= Bnd.
 
-Definition QAb (s' : Prog.st) : Prop := calls s' <= c0 + Bnd.
+Definition QAb (s' : Prog.st) : Prop := calls s' + 1 <= c0 + Bnd.
 Definition QPb (s' : Prog.st) : Prop := False.
-Definition QFb (s' : Prog.st) : Prop := calls s' <= c0 + Bnd /\ FuelShort.
+Definition QFb (s' : Prog.st) : Prop := calls s' + 1 <= c0 + Bnd /\ FuelShort.
 Notation wpb := (wp QAb QPb QFb).
 
 Lemma pot_le rel k s g : kinv rel k s g ->
   pot g (c_state k) <= Bnd /\ (c_state k <> MNone -> pot g (c_state k) + 1 <= Bnd) /\
-  calls s <= c0 + Bnd.
+  calls s + 1 <= c0 + Bnd.
 Proof.
   intros (Hk & Hnd & Hsb & Hc & Hcalls & HSs & HsepS & HPs & HsepP & Hst).
   assert (H : length (gSs g) + length (gPs g) + 1 <= Bnd).
   { apply HBnd; try assumption. intros P HP. now apply HPs. }
-  unfold pot in *. destruct (c_state k); repeat split; try lia; intros Hn; try lia; congruence.
+  unfold pot, cst in *. destruct (c_state k); repeat split; try lia; intros Hn; try lia; congruence.
 Qed.
 
 Lemma compute_maximal_spec rel fuel : forall k s g (Q : list nat -> Prog.st -> Prop),
@@ -690,7 +692,7 @@ Lemma pr_ds_loop_spec fuel : forall k s g,
   (c_state k = MInit \/ c_state k = MIntermediate \/ c_state k = MMaximal \/ c_state k = MJustDiscarded) ->
   (c_state k = MMaximal -> meets la (c_cur k) = true) ->
   (Bnd <= fuel + pot g (c_state k) \/ FuelShort) ->
-  wpb (pr_ds_loop oracle fuel F la shortcut k) (fun r s' => ds_post r /\ calls s' <= c0 + Bnd) s.
+  wpb (pr_ds_loop oracle fuel F la shortcut k) (fun r s' => ds_post r /\ calls s' + 1 <= c0 + Bnd) s.
 Proof.
   assert (Hall : forall a, allowedb a = true) by (unfold fl_ok in Hfl; now rewrite Hfp in Hfl).
   induction fuel as [|f IH]; intros k s g Hi Hst Hmm Hfuel; cbn [pr_ds_loop].
@@ -712,7 +714,7 @@ Proof.
         by (destruct Hfuel as [Hf|Hf]; [left; lia|now right]).
       assert (Hk' : k' = kk (c_cur k') (c_model k') (c_state k')) by exact (proj1 Hi').
       assert (Hdrop : forall r, ds_post r ->
-                wpb (drop k';;; ret r) (fun r s'0 => ds_post r /\ calls s'0 <= c0 + Bnd) s').
+                wpb (drop k';;; ret r) (fun r s'0 => ds_post r /\ calls s'0 + 1 <= c0 + Bnd) s').
       { intros r Hr. unfold drop. rewrite wp_bind, wp_add_clause, wp_ret. split; [exact Hr|].
         destruct (pot_le _ k' s' g' Hi') as (_ & _ & H3'). cbn. exact H3'. }
       assert (Hnx : c_state k' = MIntermediate \/ c_state k' = MMaximal \/ c_state k' = MNone).
